@@ -19,6 +19,7 @@ CONSTANTS
  MaxExtra <- MC_MaxExtra
  EMIT <- MC_EMIT
  ListOrders <- MC_ListOrders
+ BatchAtEnd <- MC_BatchAtEnd
 INIT Init
 NEXT Next
 CHECK_DEADLOCK FALSE
